@@ -52,6 +52,7 @@ func (t *Tape) next() uint64 {
 }
 
 // Draw returns a value in [0,n). n<=1 draws nothing and returns 0.
+//
 //go:norace
 func (t *Tape) Draw(n int) int {
 	if n <= 1 {
@@ -74,6 +75,7 @@ func (t *Tape) Draw(n int) int {
 
 // DrawW draws an index with the given weights; index 0 should be the "nothing unusual" choice so
 // that shrinking towards zero removes faults.  The recorded value is the index itself.
+//
 //go:norace
 func (t *Tape) DrawW(weights []int) int {
 	if len(weights) <= 1 {
@@ -111,11 +113,13 @@ func (t *Tape) DrawW(weights []int) int {
 }
 
 // Bool draws true with probability pct/100 (recorded as 1).
+//
 //go:norace
 func (t *Tape) Bool(pct int) bool {
 	return t.DrawW([]int{100 - pct, pct}) == 1
 }
 
 // Pick draws one of the given ints.
+//
 //go:norace
 func (t *Tape) Pick(vals ...int) int { return vals[t.Draw(len(vals))] }
